@@ -379,6 +379,13 @@ Section SearchFacts.
   Definition connected_near (t : qtree) (pos : pt) (T : positive) : Prop :=
     exists l, leaf t pos = Some l /\ reach nbrs bbox (qelements t) (qbounds l) (qelements l) T.
 
+  (** what makes the quadtree search find column [T]: [connected_near], or -- with the
+      fallback of the repaired code -- merely that [T] is an element of the tree and the point
+      lies in the tree's rectangle *)
+  Definition qtree_finds (t : qtree) (pos : pt) (T : positive) : Prop :=
+    connected_near t pos T \/
+    (quadtree_search_has_fallback = true /\ in_rectangle pos (qbounds t) = true /\ In T (qelements t)).
+
   (** hypothesis [tiling]: at most one column contains the point *)
   Definition tiling (pos : pt) : Prop :=
     forall c c', contains c pos = true -> contains c' pos = true -> c = c'.
@@ -386,14 +393,44 @@ Section SearchFacts.
   Lemma search_sound_l t pos e : search t pos = Some e -> contains e pos = true.
   Proof.
     unfold Locate.search. destruct (leaf t pos) as [l|]; [|discriminate].
-    apply wave_sound.
+    destruct (wave _ _ _ _ _ _ _ _ _) as [e'|] eqn:W.
+    - intro H; inversion H; subst. eapply wave_sound; exact W.
+    - destruct quadtree_search_has_fallback; [|discriminate].
+      intro H. apply find_some in H. destruct H as [_ H]. apply andb_true_iff in H. tauto.
   Qed.
   Lemma search_complete_l t pos T :
     connected_near t pos T -> contains T pos = true ->
     exists e, search t pos = Some e /\ contains e pos = true.
   Proof.
     intros [l [Hl Hr]] Hc. unfold Locate.search. rewrite Hl.
-    eapply wave_complete; eauto.
+    destruct (wave_complete polygon nbrs bbox (qelements t) (qbounds l) pos
+                (length (qelements l) + length (qelements t)) (qelements l) T (Nat.le_refl _) Hr Hc) as [e [W C]].
+    rewrite W. exists e. split; [reflexivity|exact C].
+  Qed.
+  (** with the fallback of the repaired code no connectivity is needed: an element of the tree
+      that contains the point is always found when the point lies in the tree's rectangle *)
+  Lemma search_complete_fallback t pos T :
+    quadtree_search_has_fallback = true ->
+    in_rectangle pos (qbounds t) = true ->
+    In T (qelements t) -> near_point bbox T pos = true -> contains T pos = true ->
+    exists e, search t pos = Some e /\ contains e pos = true.
+  Proof.
+    intros Hf Hb Hi Hn Hc. unfold Locate.search.
+    destruct (leaf_inside t pos Hb) as [l Hl]. rewrite Hl.
+    destruct (wave _ _ _ _ _ _ _ _ _) as [e|] eqn:W.
+    - exists e. split; [reflexivity|eapply wave_sound; exact W].
+    - rewrite Hf.
+      destruct (find (fun e => near_point bbox e pos && contains e pos) (qelements t)) as [e|] eqn:F.
+      + exists e. split; [reflexivity|]. apply find_some in F. destruct F as [_ F]. apply andb_true_iff in F. tauto.
+      + exfalso. pose proof (find_none _ _ F T Hi) as N. cbn beta in N. rewrite Hn, Hc in N. discriminate.
+  Qed.
+
+  Lemma search_finds t pos T :
+    qtree_finds t pos T -> near_point bbox T pos = true -> contains T pos = true ->
+    exists e, search t pos = Some e /\ contains e pos = true.
+  Proof.
+    intros [H|[Hf [Hb Hi]]] Hn Hc; [apply search_complete_l with (T := T); assumption|].
+    apply search_complete_fallback with (T := T); assumption.
   Qed.
 
   Lemma first_containing_sound pos cols c :
@@ -471,11 +508,11 @@ Section SearchFacts.
   Lemma full_search_complete pos searchcols donecols qt T :
     contains T pos = true -> near_point bbox T pos = true ->
     In T searchcols -> ~ In T donecols ->
-    (forall t, qt = Some t -> connected_near t pos T) ->
+    (forall t, qt = Some t -> qtree_finds t pos T) ->
     exists c, full_search pos searchcols donecols qt = Some c /\ contains c pos = true.
   Proof.
     intros Hc Hn Hi Hd Hq. unfold Locate.full_search. destruct qt as [t|].
-    - apply search_complete_l with (T := T); auto.
+    - apply search_finds with (T := T); auto.
     - destruct (first_containing_complete pos
                   (filter (fun c => negb (pmem c donecols))
                           (nodup Pos.eq_dec (filter (fun c => near_point bbox c pos) searchcols))) T) as [c Hf]; auto.
@@ -490,7 +527,7 @@ Section SearchFacts.
     contains T pos = true -> near_point bbox T pos = true ->
     inbounds pos bounds = true ->
     In T (match columns with None => columnlist | Some cs => cs end) ->
-    (forall t, qt = Some t -> connected_near t pos T) ->
+    (forall t, qt = Some t -> qtree_finds t pos T) ->
     exists c, ccp pos columns guess bounds qt = Some c /\ contains c pos = true.
   Proof.
     intros Hc Hn Hb Hi Hq. unfold Locate.column_containing_point. rewrite Hb.
@@ -512,7 +549,7 @@ Section SearchFacts.
     In T columnlist ->
     inbounds pos bounds = true ->
     In T (match columns with None => columnlist | Some cs => cs end) ->
-    (forall t, qt = Some t -> connected_near t pos T) ->
+    (forall t, qt = Some t -> qtree_finds t pos T) ->
     ccp pos columns guess bounds qt = Some T /\ ccp pos None None None None = Some T.
   Proof.
     intros Ht Hc Hn Hl Hb Hi Hq. split.
